@@ -308,9 +308,14 @@ Definition cache_lookup_do_ad (cfg : config) (k : key) (c : cache) : outcome (ca
       else
         match cget (key_set_addo k (addo_of_code alt_do)) c1 with
         | Some v =>
-            try_ c1 (update_message cfg v (fun _ => true) (remove_dnssec_o (addo_ad (k_addo k)))) (fun v' =>
-            do c2 <- cache_insert cfg k v' c1;
-            Ok (c2, LSome v'))
+            (* T1 strip_failure_is_miss: `update_message(..)?` fails the request,
+               `let Ok(value) = .. else { return Ok(None) }` makes it a miss *)
+            match update_message cfg v (fun _ => true) (remove_dnssec_o (addo_ad (k_addo k))) with
+            | Ok v' => do c2 <- cache_insert cfg k v' c1; Ok (c2, LSome v')
+            | Err e => if strip_failure_is_miss then Ok (c1, LNone) else Ok (c1, LFail e)
+            | Panic s => Panic s
+            | OutOfFuel => OutOfFuel
+            end
         | None => Ok (c1, LNone)
         end
   end.
